@@ -36,7 +36,7 @@ PROP = "C15"
 MANIFEST = dict(
     level="other", design_ref="DESIGN.md 8 (C15), 10",
     technique="TLA+ model of the listener life cycle as seen by spatial tracks (Spatial.tla: generational listener arena, bound / stale / foreign listener ids, nested tracks, callbacks) model-checked by TLC against the property-level monitor P_C15, its behaviours replayed on the real library and the recorded sessions validated by TLC; plus TLC as law checker (P_C15 geometry clauses) over integer-coded renderings of a DC source on an integer lattice x 24 orientations",
-    text="Life cycle: TLC explores every order of add / drop / move listener, add spatial track (bound to a live, dropped, slot-reused or foreign listener id; top-level or nested in another spatial track), add non-spatial descendant and callback for <= 2 listener slots, 3 listeners and 2 spatial tracks, and checks: no listener (never existed, dropped and removed, slot reused by a newer listener) => exact silence; listener exists and source within the minimum distance => the probe is heard at unity; a parameter mapped from the listener distance follows it and holds its last value without a listener; descendants inherit the spatial info. TLC-generated behaviours are replayed through the public API and every recorded session is validated by TLC. Geometry: recorded renderings on a lattice are judged by TLC for the laws of the statement (unity within min, zero at/after max, non-increasing, distance-only, ear gains in [1-s,1], emitter's side louder, mirror swap, rigid-motion invariance, strength 0 unpanned, finite incl. coincident points).",
+    text="Life cycle: TLC explores every order of add / drop / move listener, add spatial track (bound to a live, dropped, slot-reused or foreign listener id; top-level or nested in another spatial track), add non-spatial descendant and callback for <= 2 listener slots, 3 listeners and 2 spatial tracks, and checks: no listener (never existed, dropped and removed, slot reused by a newer listener) => exact silence; listener exists and source within the minimum distance => the probe is heard at unity; a parameter mapped from the listener distance follows it and holds its last value without a listener; descendants inherit the spatial info. TLC-generated behaviours are replayed through the public API and every recorded session is validated by TLC. Geometry: recorded renderings on a lattice are judged by TLC for the laws of the statement (unity within min, zero at/after max, non-increasing, distance-only, ear gains in [1-s,1], emitter's side louder, mirror swap, rigid-motion invariance, strength 0 unpanned, finite incl. coincident points). Also: rigid motions under way (listener and emitter glide together, started at once, at a clock tick, or right after creation; every frame compared with the level before), attenuation exactly at and beyond the maximum for ranges of awkward width, strengths mapped from a modulator or the listener distance (also beyond 0..1), a distance mapping installed through the handle, and a listener + spatial track created between two ring drains of the audio thread.",
     note="Level `other`: the life-cycle part is a genuine model checked exhaustively for the stated bounds (API-call granularity; the arena hand-over interleavings belong to C08), but the geometric part is sampled: integer lattice (|offset| <= 5..9, listener within 2 of the origin; dyadic offsets in steps of 1/8 and rays in steps of 1/64; far-apart points up to 10^4) x 24 axis-aligned orientations x 3 distance ranges x 6 curves x strengths {0, .25, .5, .75, 1}, fixed positions only (no position/orientation tweens, no non-axis-aligned orientations) - TLC judges recorded observations there, it does not explore. Gains are compared with an absolute tolerance of 2e-5 (f32 positions at magnitude <= 8 seen from a head of size ~0.1: 8 * 2^-23 / 0.1 ~ 1e-5 in a direction, i.e. 5e-6 in an ear gain; largest deviation observed 1e-6), 5e-2 for the far-apart class; exact zero is demanded bit-exactly. 'The emitter's side' is judged only for emitters outside the listener's head (>= 1/8 from the listener, or coincident): between the ears the notion has no meaning and the code favours the far ear there (class `head` checks the other laws). min = max distance is a class of its own (finding C15-D1: NaN at every distance); the point d = min = max and min > max are not generated (contradictory / undefined; the code panics in f32::clamp for min > max). 'Never existed' is realised by a listener id of a second manager of the same capacity (an id with a larger slot index would index out of bounds in atomic_arena). A position jump of more than f32::MAX within one chunk makes the interpolated position NaN for that chunk (recorded as fin1, not judged).")
 
 ONE = 1000000
